@@ -3,7 +3,7 @@ import operator
 import sys
 from fractions import Fraction
 
-sys.path.insert(0, "/repo")
+sys.path.insert(0, __import__("os").environ.get("VERIF_REPO", "/repo"))
 from fibertree import Fiber, Payload, CoordPayload  # noqa: E402
 from . import proj  # noqa: E402
 
